@@ -2129,3 +2129,65 @@ V("C17-batch-rebase-inverted-test","C17",WFL,"""					if handledAddr {
 					} else {
 						b = sortedAddrs[i+1 : i+1]
 					}""",expect="silent")
+
+# ---- rules added after batch F
+EIN="pkg/local_object_storage/engine/inhume.go"; MGY="pkg/local_object_storage/metabase/graveyard.go"; MEX="pkg/local_object_storage/metabase/exists.go"; FRW="pkg/local_object_storage/blobstor/fstree/rewrite_compressed_linux.go"
+V("C06-container-removal-stops-at-refusing-shard","C06",EIN,"""			e.log.Warn("inhuming container",
+				zap.Stringer("cid", cID),
+				zap.Stringer("shard", sh.ID()),
+				zap.Error(err))
+		}""","""			e.log.Warn("inhuming container",
+				zap.Stringer("cid", cID),
+				zap.Stringer("shard", sh.ID()),
+				zap.Error(err))
+
+			return err
+		}""",rule="C06.R6")
+V("C09-lister-skips-marks-without-index-record","C09",MGY,"""		if !isNonPhysicalEntry(lookup, obj) {
+			removable++
+		}
+		objs = append(objs, obj)""","""		if k, _ := lookup.Seek(slices.Concat([]byte{metaPrefixID}, obj[:])); !bytes.HasPrefix(k, obj[:1]) && len(k) == 0 {
+			continue
+		}
+		if !isNonPhysicalEntry(lookup, obj) {
+			removable++
+		}
+		objs = append(objs, obj)""",rule="C09.R8")
+V("C44-lister-skips-marks-without-index-record","C44",MGY,"""		if !isNonPhysicalEntry(lookup, obj) {
+			removable++
+		}
+		objs = append(objs, obj)""","""		if k, _ := lookup.Seek(slices.Concat([]byte{metaPrefixID}, obj[:])); !bytes.HasPrefix(k, obj[:1]) && len(k) == 0 {
+			continue
+		}
+		if !isNonPhysicalEntry(lookup, obj) {
+			removable++
+		}
+		objs = append(objs, obj)""",rule="C44.R8")
+V("C19-marked-id-reported-absent","C19",MEX,"""	case statusGCMarked:
+		return false, logicerr.Wrap(fmt.Errorf("%w: %w", apistatus.ObjectNotFound{}, errors.New("object marked as garbage")))""","""	case statusGCMarked:
+		if _, typErr := fetchTypeForID(metaCursor, id); typErr != nil {
+			return false, nil
+		}
+		return false, logicerr.Wrap(fmt.Errorf("%w: %w", apistatus.ObjectNotFound{}, errors.New("object marked as garbage")))""",rule="C19.R8")
+V("C12-rewrite-names-the-file-before-writing","C12",FRW,"""	n, err := f.Write(data)
+	if err != nil {
+		return fmt.Errorf("write unnamed temporary object file: %w", err)
+	}
+	if n != len(data) {
+		return fmt.Errorf("write unnamed temporary object file: %w", io.ErrShortWrite)
+	}""","""	earlyLink := path + ".rewrite-compressed"
+	if err = unix.Linkat(unix.AT_FDCWD, "/proc/self/fd/"+strconv.Itoa(fd), unix.AT_FDCWD, earlyLink, unix.AT_SYMLINK_FOLLOW); err != nil && !errors.Is(err, unix.EEXIST) {
+		return fmt.Errorf("link unnamed temporary object file: %w", err)
+	}
+	n, err := f.Write(data)
+	if err != nil {
+		return fmt.Errorf("write unnamed temporary object file: %w", err)
+	}
+	if n != len(data) {
+		return fmt.Errorf("write unnamed temporary object file: %w", io.ErrShortWrite)
+	}""",rule="C12.R1")
+V("C12-rewrite-tolerates-existing-link","C12",FRW,"""	if err = unix.Linkat(unix.AT_FDCWD, procPath, unix.AT_FDCWD, linkPath, unix.AT_SYMLINK_FOLLOW); err != nil {
+		return fmt.Errorf("link unnamed temporary object file: %w", err)
+	}""","""	if err = unix.Linkat(unix.AT_FDCWD, procPath, unix.AT_FDCWD, linkPath, unix.AT_SYMLINK_FOLLOW); err != nil && !errors.Is(err, unix.EEXIST) {
+		return fmt.Errorf("link unnamed temporary object file: %w", err)
+	}""",rule="C12.R1")
